@@ -228,6 +228,11 @@ fn free_gap(regions: &[(usize, usize)], live: &[Option<(usize, usize, usize)>], 
 }
 
 fn round_of(w: &mut World, ops: &[Op], order: FreeOrder) -> Result<Option<Vec<usize>>, String> {
+    run_ops(w, ops, order, true)
+}
+
+/// `free_all == false`: the blocks stay allocated (probing; the world is reset afterwards)
+fn run_ops(w: &mut World, ops: &[Op], order: FreeOrder, free_all: bool) -> Result<Option<Vec<usize>>, String> {
     let a: *mut Dlmalloc = &mut *w.a;
     // the kernel is the plan of `sysx::run`; between two allocator calls (no plan code running) the closure
     // below also reads its mapping table through this pointer
@@ -285,7 +290,7 @@ fn round_of(w: &mut World, ops: &[Op], order: FreeOrder) -> Result<Option<Vec<us
                     }
                 }
             }
-            let n = slots.len();
+            let n = if free_all { slots.len() } else { 0 };
             for j in 0..n {
                 let i = if order == FreeOrder::Lifo { n - 1 - j } else { j };
                 if let Some(b) = slots[i].take() {
@@ -809,6 +814,217 @@ fn cross_validate(wl: &Workload, brute: &LassoResult, fast: &LassoResult, r: &mu
     }
 }
 
+// ---------------------------------------------------------------------------
+// start layouts (explicit-state search over warm-up episodes) and the same-tree-bin family
+
+pub const LAYOUT_SIZES: [usize; 6] = [300, 40 << 10, 300 << 10, 3 << 20, 6 << 20, 20 << 20];
+
+/// An episode allocates one or two (thorough: up to three) blocks of `LAYOUT_SIZES` and frees everything again (every free order).
+pub fn episodes(th: bool) -> Vec<Vec<Op>> {
+    let m = |size| Op::Malloc { size, align: 8 };
+    let mut v = Vec::new();
+    if th {
+        // thorough: also three blocks, freed in every order
+        for &a in &LAYOUT_SIZES {
+            for &b in &LAYOUT_SIZES {
+                for &c in &LAYOUT_SIZES {
+                    for perm in permutations(3) {
+                        let mut e = vec![m(a), m(b), m(c)];
+                        e.extend(perm.iter().map(|&i| Op::Free { slot: i }));
+                        v.push(e);
+                    }
+                }
+            }
+        }
+    }
+    for &a in &LAYOUT_SIZES {
+        v.push(vec![m(a), Op::Free { slot: 0 }]);
+    }
+    for &a in &LAYOUT_SIZES {
+        for &b in &LAYOUT_SIZES {
+            v.push(vec![m(a), m(b), Op::Free { slot: 0 }, Op::Free { slot: 1 }]);
+            v.push(vec![m(a), m(b), Op::Free { slot: 1 }, Op::Free { slot: 0 }]);
+        }
+    }
+    v
+}
+
+/// indices of the `top` and `topsize` words of the `Dlmalloc` object, found by experiment: a second small
+/// malloc from a fresh top moves exactly these two by the chunk size
+fn top_indices(w: &mut World) -> Option<(usize, usize)> {
+    let m = Op::Malloc { size: 24, align: 8 };
+    w.reset();
+    run_ops(w, &[m], FreeOrder::Fifo, false).ok()??;
+    let s1 = w.struct_bytes().to_vec();
+    w.reset();
+    run_ops(w, &[m, m], FreeOrder::Fifo, false).ok()??;
+    let s2 = w.struct_bytes().to_vec();
+    w.reset();
+    let rd = |b: &Vec<u8>, i: usize| unsafe { (b.as_ptr() as *const u64).add(i).read_unaligned() };
+    let mut top = None;
+    let mut topsize = None;
+    for i in 0..s1.len() / 8 {
+        let (a, b) = (rd(&s1, i), rd(&s2, i));
+        if b == a.wrapping_add(32) && a >= w.k.base as u64 {
+            top = Some(i);
+        } else if a == b.wrapping_add(32) && a < (1 << 32) {
+            topsize = Some(i);
+        }
+    }
+    Some((top?, topsize?))
+}
+
+pub const PROBES: [usize; 7] = [1000, 50_000, 300_000, 3 << 20, (5 << 20) + (512 << 10), 10 << 20, 20 << 20];
+
+/// Coarse, partly behavioural key of a layout (everything freed) built by `warm` under `policy`: the shape
+/// of the mapping table (sizes, which mappings touch), where top is and how big (power of two), and for a
+/// ladder of probe requests whether the request is served from held memory and from which mapping.
+fn layout_key(w: &mut World, policy: Policy, warm: &[Op], tops: Option<(usize, usize)>) -> Option<u64> {
+    let prepare = |w: &mut World| -> bool {
+        w.reset();
+        w.k.default_policy = policy;
+        warm.is_empty() || matches!(round_of(w, warm, FreeOrder::Fifo), Ok(Some(_)))
+    };
+    if !prepare(w) {
+        return None;
+    }
+    let regions = w.k.regions.clone();
+    let region_of = |regs: &[(usize, usize)], x: usize| regs.iter().position(|r| r.0 <= x && x < r.1).map_or(99, |i| i as u64);
+    let mut h = mix(0x4b45, policy.letter() as u64);
+    for (i, &(a, b)) in regions.iter().enumerate() {
+        h = mix(h, (b - a) as u64);
+        h = mix(h, regions.get(i + 1).map_or(2, |n| (n.0 == b) as u64));
+    }
+    if let Some((ti, si)) = tops {
+        let sb = w.struct_bytes();
+        let rd = |i: usize| unsafe { (sb.as_ptr() as *const u64).add(i).read_unaligned() };
+        h = mix(h, region_of(&regions, rd(ti) as usize));
+        h = mix(h, 64 - rd(si).leading_zeros() as u64);
+    }
+    for &pr in &PROBES {
+        if !prepare(w) {
+            return None;
+        }
+        w.k.events.clear();
+        let got = run_ops(w, &[Op::Malloc { size: pr, align: 8 }], FreeOrder::Fifo, false).ok()??;
+        let mapped = w.k.events.iter().any(|e| !matches!(e, Ev::Refused(_)));
+        h = mix(h, mapped as u64);
+        h = mix(h, if mapped { 98 } else { region_of(&regions, got[0]) });
+        // how far into its mapping (power of two)
+        let off = regions.iter().find(|r| r.0 <= got[0] && got[0] < r.1).map_or(0, |r| got[0] - r.0);
+        h = mix(h, if mapped { 0 } else { 64 - (off as u64).leading_zeros() as u64 });
+    }
+    w.reset();
+    Some(h)
+}
+
+/// Breadth-first search over the heap layouts reachable from the empty heap by sequences of episodes
+/// (each ends with everything freed), under the given placement policies; layouts are identified by
+/// `layout_key` (an abstraction: one representative per key is kept and expanded).  Returns one shortest warm-up per distinct layout, the empty one first.
+pub fn explore_layouts(th: bool, policies: &[Policy], depth: usize, max_layouts: usize, out: &str, r: &mut Report) -> Vec<(Policy, Vec<Op>)> {
+    let mut found: Vec<(Policy, Vec<Op>)> = Vec::new();
+    let mut seen: HashSet<(char, u64)> = HashSet::new();
+    let mut frontier: Vec<(Policy, Vec<Op>)> = policies.iter().map(|&p| (p, vec![])).collect();
+    for level in 0..=depth {
+        // level 0 only fingerprints the empty heap
+        let nsh = 32usize.min(frontier.len().max(1));
+        let mut items = Vec::new();
+        for sh in 0..nsh {
+            let mine: Vec<(Policy, Vec<Op>)> = frontier.iter().enumerate().filter(|(i, _)| i % nsh == sh).map(|(_, x)| x.clone()).collect();
+            items.push(isolated(format!("layouts-{level}-{sh}"), move || {
+                let mut r = Report::new();
+                let mut w = World::new(0);
+                let tops = top_indices(&mut w);
+                if tops.is_none() {
+                    r.note("top/topsize words of the Dlmalloc object not identified: the layout key does without them");
+                }
+                let eps: Vec<Vec<Op>> = if level == 0 { vec![vec![]] } else { episodes(th) };
+                for (p, warm) in &mine {
+                    for ep in &eps {
+                        let mut ops = warm.clone();
+                        ops.extend_from_slice(ep);
+                        let wl = Workload { warmup: vec![], ops: ops.clone(), order: FreeOrder::Fifo, policy: *p };
+                        set_case(&wl.to_json().to_string());
+                        let key = layout_key(&mut w, *p, &ops, tops);
+                        clear_case();
+                        r.transitions += 1;
+                        let Some(fp) = key else { continue };
+                        r.note(format!("L|{}|{fp}|{}", p.letter(), show_ops(&ops).join(" ")));
+                    }
+                }
+                r
+            }));
+        }
+        let lr = run_isolated(items, out, "C04");
+        r.transitions += lr.transitions;
+        for (k, v) in lr.violations {
+            r.violations.insert(k, v);
+        }
+        let mut cand: Vec<(Policy, u64, Vec<Op>)> = Vec::new();
+        for n in &lr.notes {
+            let mut it = n.splitn(4, '|');
+            if it.next() != Some("L") {
+                if !r.notes.contains(n) {
+                    r.notes.push(n.clone());
+                }
+                continue;
+            }
+            let p = it.next().and_then(|s| s.chars().next()).and_then(Policy::from_letter).unwrap_or(Policy::TopDown);
+            let fp: u64 = it.next().and_then(|s| s.parse().ok()).unwrap_or(0);
+            let ops: Vec<Op> = it.next().unwrap_or("").split_whitespace().filter_map(Op::parse).collect();
+            cand.push((p, fp, ops));
+        }
+        // deterministic choice of the representative: shortest, then lexicographic
+        cand.sort_by(|a, b| (a.0.letter(), a.2.len(), show_ops(&a.2)).cmp(&(b.0.letter(), b.2.len(), show_ops(&b.2))));
+        let mut next = Vec::new();
+        for (p, fp, ops) in cand {
+            if seen.insert((p.letter(), fp)) {
+                next.push((p, ops));
+            }
+        }
+        r.states += next.len() as u64;
+        r.note(format!("layout search level {level}: {} new distinct layouts", next.len()));
+        found.extend(next.iter().cloned());
+        frontier = next;
+        if frontier.is_empty() {
+            break;
+        }
+        if found.len() >= max_layouts {
+            r.outcome("layout-search-stopped-at-the-layout-limit");
+            break;
+        }
+    }
+    found.truncate(max_layouts);
+    found
+}
+
+/// Family "same-bin": three sizes X < Y < S that fall into ONE tree bin, with 300-byte pins between the
+/// blocks: allocate two of them, free both (either order), request the third; then free everything.
+pub const SAME_BIN_LADDER: [[usize; 3]; 4] =
+    [[1100, 1300, 1450], [50_000, 56_000, 62_000], [270_000, 320_000, 370_000], [(4 << 20) + (200 << 10), (5 << 20) + (100 << 10), (5 << 20) + (512 << 10)]];
+
+pub fn samebin_family() -> Vec<(Vec<Op>, FreeOrder)> {
+    let m = |size| Op::Malloc { size, align: 8 };
+    let mut v = Vec::new();
+    for bin in SAME_BIN_LADDER {
+        for i in 0..3 {
+            for j in 0..3 {
+                if i == j {
+                    continue;
+                }
+                let k = 3 - i - j;
+                for first_free in [0usize, 2] {
+                    for order in [FreeOrder::Fifo, FreeOrder::Lifo] {
+                        let ops = vec![m(bin[i]), m(300), m(bin[j]), m(300), Op::Free { slot: first_free }, Op::Free { slot: 2 - first_free }, m(bin[k])];
+                        v.push((ops, order));
+                    }
+                }
+            }
+        }
+    }
+    v
+}
+
 pub fn lasso(args: &Args) -> Report {
     let th = args.thorough;
     let nsh = if th { 256usize } else { 64 };
@@ -817,13 +1033,38 @@ pub fn lasso(args: &Args) -> Report {
     let n_seq = seq_family(th).len();
     // every 4th workload of the alloc family is also run without acceleration
     let brute_every = 4;
+    // start layouts for the same-bin family
+    let mut pre = Report::new();
+    let (ldepth, lmax) = if th { (7, 4000) } else { (5, 300) };
+    let lpol: Vec<Policy> = if th { ALL_POLICIES.to_vec() } else { vec![Policy::TopDown, Policy::Below] };
+    let layouts = explore_layouts(th, &lpol, ldepth, lmax, &args.out, &mut pre);
+    let n_layouts = layouts.len();
+    if std::env::var("H_ALLOC_SHOW_LAYOUTS").is_ok() {
+        for (p, w) in &layouts {
+            eprintln!("layout {} {:?}", p.letter(), show_ops(w));
+        }
+    }
+    let n_samebin = n_layouts * samebin_family().len();
     for sh in 0..nsh {
+        let layouts = layouts.clone();
         items.push(isolated(format!("lasso-{sh}"), move || {
             let mut r = Report::new();
             let mut w = World::new(0);
             let fast = limits(th, true);
             let brute = limits(th, false);
-            let all: Vec<(bool, Workload)> = alloc_family(th).into_iter().map(|w| (true, w)).chain(seq_family(th).into_iter().map(|w| (false, w))).collect();
+            let mut all: Vec<(bool, Workload)> = alloc_family(th).into_iter().map(|w| (true, w)).chain(seq_family(th).into_iter().map(|w| (false, w))).collect();
+            for (p, warm) in &layouts {
+                for (ops, order) in samebin_family() {
+                    all.push((false, Workload { warmup: warm.clone(), ops, order, policy: *p }));
+                }
+                if th && !warm.is_empty() {
+                    // thorough: the quick alloc family from every non-empty start layout as well
+                    for mut wl in alloc_family(false).into_iter().filter(|x| x.policy == *p) {
+                        wl.warmup = warm.clone();
+                        all.push((false, wl));
+                    }
+                }
+            }
             for (i, (is_alloc, wl)) in all.into_iter().enumerate() {
                 if i % nsh != sh {
                     continue;
@@ -854,9 +1095,13 @@ pub fn lasso(args: &Args) -> Report {
         }));
     }
     let mut r = run_isolated(items, &args.out, "C04");
+    r.merge(pre);
     let sa = seq_alpha(th);
     r.rule = format!(
-        "every workload of two families, each generated once. 'alloc': every sequence of 1..={} allocations from {:?} [= every multiset in every allocation order] x free order \
+        "every workload of three families, each generated once. 'same-bin' ({n_samebin} workloads): from EVERY one of {n_layouts} distinct start layouts x the 96 workloads \
+         'allocate two of three sizes X<Y<S of one tree bin (ladder {SAME_BIN_LADDER:?}) with 300-byte pins, free both in either order, request the third, free all fifo/lifo'; the start \
+         layouts are found by breadth-first search from the empty heap over episodes 'allocate one or two blocks of {LAYOUT_SIZES:?}, free them in either order' (depth {ldepth}, policies {}, \
+         one representative per layout key = shape of the mapping table, mapping and size class of top, and for the probe requests {PROBES:?} whether and where they are served from held memory; limit {lmax}); the warm-up's peak counts as live bytes for the bound (thorough: three-block episodes too, and the quick alloc family from every non-empty layout). 'alloc': every sequence of 1..={} allocations from {:?} [= every multiset in every allocation order] x free order \
          fifo/lifo/interleaved(free-as-you-go) x the 5 placement policies T/B/A/D/U ({n_alloc} workloads). 'seq': every operation sequence of length 1..={} over allocations {:?} and \
          realloc(live slot, s) s in {:?} with <= 3 live slots, followed by free-all in fifo/lifo slot order, x policies {:?} ({n_seq} workloads). One repetition = run the operations and free \
          everything, on the real allocator over the model kernel; it is iterated until the full state (footprint, mapping table, addresses returned, the bytes of the Dlmalloc object, every \
@@ -864,6 +1109,7 @@ pub fn lasso(args: &Args) -> Report {
          after an earlier repetition. Repetitions in which only the release_checks countdown changes are skipped (three consecutive identical quiet repetitions observed first); the alloc family \
          is {} ALSO run without that shortcut (cap {} repetitions, > {} release_checks periods of {MAX_RELEASE_CHECK_RATE}) and the two runs' kernel-call traces compared \
          (traces_validated_against_impl). A run stops at once when the footprint exceeds the allowed bound (3 x peak live bytes rounded up to 64 KiB + 4 MiB). states = distinct state fingerprints, transitions = repetitions executed.",
+        lpol.iter().map(|p| p.letter()).collect::<String>(),
         if th { 4 } else { 3 },
         alloc_alphabet(th),
         sa.max_len,
@@ -874,6 +1120,8 @@ pub fn lasso(args: &Args) -> Report {
         limits(th, false).cap_rounds,
         limits(th, false).cap_rounds / (MAX_RELEASE_CHECK_RATE + 1) - 1
     );
+    r.bound("start_layouts", n_layouts);
+    r.bound("layout_search_depth_episodes", ldepth);
     r.bound("alloc_family_max_items", if th { 4 } else { 3 });
     r.bound("seq_family_max_len", sa.max_len);
     r.bound("round_cap_brute_force", limits(th, false).cap_rounds);
